@@ -202,6 +202,15 @@ def run(ctx):
         ck.ob("C11-R3", fn, "chord-loop:exit-only-by-exhaustion", exh, site="bb%d" % h)
     for cv in chord_vecs:
         mine = [(h, e, g, p) for (h, e, g, p) in fills if e.b[0] == cv]
+        ch = loopseg.chain_chord(cv, ctx)
+        if ch is not None and not mine:
+            # one expression instead of two loops: every element of the first iterator becomes a press, then every
+            # element of the second a release -- the same two fills, unconditional by construction
+            class _Fill:
+                def __init__(self, b):
+                    self.b = b
+            mine = [(-2, _Fill((cv, T("agg", "events::Event", ch[1], (T("elem", ch[0], None),), ()))), [], None),
+                    (-1, _Fill((cv, T("agg", "events::Event", ch[3], (T("elem", ch[2], None),), ()))), [], None)]
         # any push into the chord vector outside these loops?
         outside = 0
         for s in M.segments:
@@ -212,7 +221,7 @@ def run(ctx):
               detail="pushes in loops: %d, outside: %d" % (len(mine), outside))
         if len(mine) != 2:
             continue
-        mine.sort(key=lambda x: _loop_order(M, x[0]))
+        mine.sort(key=lambda x: x[0] if x[0] < 0 else _loop_order(M, x[0]))
         (h1, e1, g1, p1), (h2, e2, g2, p2) = mine
         a1, a2 = e1.b[1], e2.b[1]
         ok1 = a1[0] == "agg" and a1[1] == "events::Event" and a1[2] == "Pressed" and a1[3][0][0] == "elem"
